@@ -29,7 +29,8 @@ def parseVal (t : String) : PyV :=
   | _ => .other t
 
 def hexOfString (s : String) : String :=
-  String.ofList (s.toUTF8.toList.flatMap (fun b => [hexDigit (b.toNat / 16), hexDigit (b.toNat % 16)]))
+  -- strings travel as one character per byte (see `strOfHex`): write the bytes back, not their UTF-8 encoding
+  String.ofList (s.toList.flatMap (fun c => [hexDigit (c.toNat / 16 % 16), hexDigit (c.toNat % 16)]))
 
 def showVal : PyV → String
   | .none => "N" | .bool true => "T" | .bool false => "F"
